@@ -89,6 +89,14 @@ def prop(case):
         worst2 = max(worst2, t)
         if t > C2:
             bad.append(("tan_beta_cor changes with the scale", k, a["tan_beta_cor"], b["tan_beta_cor"], "c_obs", t))
+        # the other tan(beta)-enhanced corrections are built the same way (mu M_i I_abc ~ k^2 / k^2): Delta_tau stays
+        # fixed to O((MZ/M)^2) like Delta_mu (observed <= 2e-3 eps2, bound 0.05 eps2), Delta_b has no electroweak
+        # scale in it at all and is exactly invariant under the power-of-two scalings of the ladder (observed: 0)
+        dt = abs(b["delta_tau"] - a["delta_tau"]) / eps2
+        if dt > C2:
+            bad.append(("delta_tau changes with the scale", k, a["delta_tau"], b["delta_tau"], "c_obs", dt))
+        if abs(b["delta_bottom"] - a["delta_bottom"]) > 1e-10 * max(abs(a["delta_bottom"]), 1e-6):
+            bad.append(("delta_bottom is not scale invariant", k, a["delta_bottom"], b["delta_bottom"]))
         if b["unc2L"] > a["unc2L"] * (1 + 1e-12):
             bad.append(("two-loop uncertainty increases with the scale", k, a["unc2L"], b["unc2L"]))
     for r, k in zip(rs, KS):
